@@ -48,6 +48,10 @@ def names_of_scope(cont):
 def unresolvable(doc):
     """names that, printed and read again in the scope where the reader will read them, do not denote the same URI
     (the C03 (c) findings, inherited) -- decided on the real objects with the non-mutating string path"""
+    if undeclared_prefix_names(doc):
+        # a name under a prefix nobody declares is not this finding (which is about prefixes that *are* declared, twice): no
+        # construction history of the pinned code produces one, so whatever fails on such a document is not excused
+        return []
     bad = []
     for cont in [doc] + list(doc.bundles):
         for q, role in names_of_scope(cont):
@@ -59,6 +63,21 @@ def unresolvable(doc):
             back = cont.valid_qualified_name(s) if s else None
             if back is None or back.uri != q.uri:
                 bad.append((role, s, q.uri, back.uri if back is not None else None))
+    return bad
+
+
+def undeclared_prefix_names(doc):
+    """names that carry a prefix neither their container nor its document declares at all: no construction history of the
+    public interface leaves such a name behind (every route registers the namespace of a name it stores), so this is never the
+    known capture finding"""
+    bad = []
+    for cont in [doc] + list(doc.bundles):
+        declared = {n.prefix for n in cont.get_registered_namespaces()} | {"prov", "xsd", "xsi"}
+        if cont is not doc:
+            declared |= {n.prefix for n in doc.get_registered_namespaces()}
+        for q, role in names_of_scope(cont):
+            if q.namespace.prefix and q.namespace.prefix not in declared:
+                bad.append((role, q.namespace.prefix, q.uri))
     return bad
 
 
